@@ -229,6 +229,23 @@ type rf20 struct { // deep nesting
 	} `avp:"V-GRP"`
 }
 
+type rfAllOmit struct { // a grouped struct all of whose members may be omitted
+	A uint32 `avp:"V-U32,omitempty"`
+	B string `avp:"V-OS,omitempty"`
+}
+type rf23 struct {
+	T  rfAllOmit    `avp:"V-GRP"`
+	P  *rfAllOmit   `avp:"V-GRP2"`
+	S  []rfAllOmit  `avp:"V-GNOV"`
+	ID string       `avp:"V-ID"`
+}
+type rf24 struct {
+	PS []*rfAllOmit `avp:"V-GRP"`
+	In *struct {
+		E  *rfAllOmit `avp:"V-GRP2"`
+		ES []rfAllOmit `avp:"V-GNOV"`
+	} `avp:"V-GRP2"`
+}
 type rfEmb2 struct {
 	F32 float32 `avp:"V-F32"`
 	URI string  `avp:"V-URI"`
@@ -253,6 +270,7 @@ type rf22 struct { // dictionary entries whose Must and vendor id do not line up
 
 var rfFamily = []func() interface{}{
 	func() interface{} { return new(rf21) }, func() interface{} { return new(rf22) },
+	func() interface{} { return new(rf23) }, func() interface{} { return new(rf24) },
 	func() interface{} { return new(rf0) }, func() interface{} { return new(rf1) }, func() interface{} { return new(rf2) },
 	func() interface{} { return new(rf3) }, func() interface{} { return new(rf4) }, func() interface{} { return new(rf5) },
 	func() interface{} { return new(rf6) }, func() interface{} { return new(rf7) }, func() interface{} { return new(rf8) },
@@ -537,6 +555,9 @@ func fillValue(r *RNG, v reflect.Value, depth int) {
 		v.Set(reflect.New(t.Elem()))
 		fillValue(r, v.Elem(), depth+1)
 	case reflect.Struct:
+		if depth > 0 && r.Chance(20) {
+			return // an all-zero struct
+		}
 		for i := 0; i < t.NumField(); i++ {
 			if v.Field(i).CanSet() {
 				fillValue(r, v.Field(i), depth+1)
